@@ -332,6 +332,13 @@ def oracle_public(ctx, count):
             u = np.exp(1j * np.array([rng.uniform(0, 6) for _ in range(n)]))
             A = sp.csr_array(sp.diags_array(u) @ A @ sp.diags_array(u.conj()))
         A = sp.csr_array(A.astype(dt))
+        scaled = it % 7 == 5
+        if scaled:
+            # the same system in other units (an exact power of two far below the machine epsilon of the type): every
+            # splitting formula is invariant, and a nonzero diagonal is a nonzero diagonal
+            sc = dt(2.0 ** (-30 if dt in (np.float32, np.complex64) else -60))
+            A = sp.csr_array((A.data * sc, A.indices.copy(), A.indptr.copy()), shape=A.shape)
+            ctx.count('oracle:scaled-system')
         D = A.toarray()
         unsorted = it % 2 == 1
         if unsorted:
@@ -351,6 +358,8 @@ def oracle_public(ctx, count):
         b = np.array([rng.uniform(-1, 1) for _ in range(n)]).astype(dt)
         if cplx:
             x = (x + 1j * np.array([rng.uniform(-1, 1) for _ in range(n)])).astype(dt)
+        if scaled:
+            b = (b * sc).astype(dt)
         if it % 5 == 3:
             x = np.zeros(n, dtype=dt)        # the zero initial guess (every coarse-level pre-smoothing starts there)
         sweep = rng.choice(['forward', 'backward', 'symmetric'])
@@ -368,7 +377,7 @@ def oracle_public(ctx, count):
         Fpts = np.array([i for i in range(nb) if i not in set(Cpts.tolist())], dtype=I32)
         base = dict(dense=D.real.tolist() if not cplx else [[[v.real, v.imag] for v in r] for r in D],
                     dtype=np.dtype(dt).name, x=[complex(v) for v in x], b=[complex(v) for v in b],
-                    sweep=sweep, iterations=its, omega=om, blocksize=bs, format=fmt, unsorted_indices=unsorted)
+                    sweep=sweep, iterations=its, omega=om, blocksize=bs, format=fmt, unsorted_indices=unsorted, scaled=bool(scaled))
 
         def rep(f, n_it):
             y = x.copy()
